@@ -683,6 +683,7 @@ func (f *frpc) stop(c *h.Case) {
 	f.ch.Term(8 * time.Second)
 	if line, frame, ok := f.ch.Crash(); ok {
 		run.Count("frpc_child_crashes_ignored", 1)
+		run.Count("frpc_child_crash:"+frame, 1)
 		if c != nil {
 			c.Ev("frpc-crash", "line", line, "frame", frame)
 		}
